@@ -17,7 +17,7 @@ use crate::iterators::{
 use crate::layout::{
     AsIndex, AsShape, BroadcastLayout, DynLayout, FromShape, InsertDim, IntoLayout, Layout,
     LayoutExt, MatrixLayout, MutLayout, NdLayout, OverlapPolicy, RemoveDim, ResizeLayout,
-    SizeArray, SliceWith, TrustedLayout,
+    SizeArray, SliceWith, TrustedLayout, checked_min_data_len, checked_shape_len,
 };
 use crate::overlap::may_have_internal_overlap;
 use crate::slice_range::{IntoSliceItems, SliceItem};
@@ -580,6 +580,10 @@ impl<S: Storage, L: Layout> TensorBase<S, L> {
         L: FromShape,
     {
         let data = data.into_storage();
+        // The length of a shape which is too large cannot match any storage.
+        if checked_shape_len(&shape).is_none() {
+            return Err(FromDataError::StorageLengthMismatch);
+        }
         let layout = L::from_shape(shape);
         if layout.min_data_len() != data.len() {
             return Err(FromDataError::StorageLengthMismatch);
@@ -592,7 +596,11 @@ impl<S: Storage, L: Layout> TensorBase<S, L> {
     /// Panics if the storage length is too short for the layout, or the storage
     /// is mutable and the layout may map multiple indices to the same offset.
     pub fn from_storage_and_layout(data: S, layout: L) -> TensorBase<S, L> {
-        assert!(data.len() >= layout.min_data_len());
+        // `layout` may have been modified since it was created (eg. via
+        // `resize_dim`), so compute the required length with overflow checks.
+        let min_data_len =
+            checked_min_data_len(&layout.shape(), &layout.strides()).expect("layout is too large");
+        assert!(data.len() >= min_data_len);
         assert!(!S::MUTABLE || !may_have_internal_overlap(layout.shape(), layout.strides()));
         TensorBase { data, layout }
     }
